@@ -182,6 +182,46 @@ func SyncRows() []Row {
 		r.ValueCtx = "any"
 		add(r)
 	}
+	// two-source operators whose second source never says anything (a hand-made observable that stores nothing),
+	// and BufferWithTime with a period that never elapses: the single-source face of TakeUntil, SkipUntil,
+	// SampleWhen, ThrottleWhen, BufferWhen, so that the catalogue-driven checks reach their code too
+	{
+		never := func() ro.Observable[int] {
+			return ro.NewObservable(func(ro.Observer[int]) ro.Teardown { return nil })
+		}
+		terminalOnly := func(in []h.Ev) []h.Ev {
+			_, end := split(in)
+			if end == nil {
+				return nil
+			}
+			return []h.Ev{*end}
+		}
+		allAtCompletion := func(in []h.Ev) []h.Ev {
+			vals, end := split(in)
+			var out []h.Ev
+			if end != nil {
+				if end.K == h.C {
+					buf := []int{}
+					for _, v := range vals {
+						buf = append(buf, iv(v))
+					}
+					out = append(out, h.Nx(buf))
+				}
+				out = append(out, *end)
+			}
+			return out
+		}
+		add(intRow("TakeUntil(never)", "TakeUntil", S, func(e *Env) Op[int, int] { return Op[int, int](ro.TakeUntil[int](never())) }, identity))
+		add(intRow("SkipUntil(never)", "SkipUntil", SS, func(e *Env) Op[int, int] { return Op[int, int](ro.SkipUntil[int](never())) }, terminalOnly))
+		add(intRow("SampleWhen(never)", "SampleWhen", SS, func(e *Env) Op[int, int] { return Op[int, int](ro.SampleWhen[int](never())) }, terminalOnly))
+		add(intRow("ThrottleWhen(never)", "ThrottleWhen", SS, func(e *Env) Op[int, int] { return Op[int, int](ro.ThrottleWhen[int](never())) }, terminalOnly))
+		bw := mkRow("BufferWhen(never)", "BufferWhen", SS, func(e *Env) Op[int, []int] { return Op[int, []int](ro.BufferWhen[int](never())) }, allAtCompletion)
+		bw.ValueCtx = "any"
+		add(bw)
+		bt := mkRow("BufferWithTime(1h)", "BufferWithTime", SS, func(e *Env) Op[int, []int] { return Op[int, []int](ro.BufferWithTime[int](time.Hour)) }, allAtCompletion)
+		bt.ValueCtx = "any"
+		add(bt)
+	}
 	pw := mkRow("Pairwise", "Pairwise", SS, func(e *Env) Op[int, []int] { return Op[int, []int](ro.Pairwise[int]()) },
 		func(in []h.Ev) []h.Ev {
 			vals, end := split(in)
